@@ -352,6 +352,9 @@ func (a *allocScan) scan(fn *ssa.Function, excluded map[*ssa.BasicBlock]bool, ct
 				report(t, "make map")
 			case *ssa.MakeChan:
 				report(t, "make chan")
+			case *ssa.MapUpdate:
+				// the first insert allocates the bucket array (a map made with no size hint has none), a later one may grow it
+				report(t, "map insert may allocate or grow buckets")
 			case *ssa.MakeClosure:
 				if len(t.Bindings) > 0 {
 					report(t, "closure")
